@@ -50,7 +50,7 @@ def gen_cases(rng, tier):
         h += ['u%d' % k for k in down] + ['t50', 'q']
         cases.append({'id': 'c04-unmapped-%d' % i, 'cfg': cfg, 'hist': h, 'sub': 'ksim', 'blocked': blk == 'yes', 'out': OUT,
                       'tags': {'mode': 'unmapped-key', 'block': blk}})
-    return cases
+    return cases + file_loader_pairs(rng, tier)
 
 
 def oracle(c, it):
@@ -69,7 +69,57 @@ def oracle(c, it):
     return None
 
 
+def file_loader_pairs(rng, tier):
+    """the same configuration loaded from a string (ksim: new_from_str, as every simulation here) and from a file (rsim: Kanata::new,
+    what the program and live reload do): the layer search must be the same - transparent keys under two held layers, a switched base"""
+    out = []
+    k = 0
+    for opts in ('', 'delegate-to-first-layer yes', 'transparent-key-resolution to-base-layer',
+                 'transparent-key-resolution to-base-layer delegate-to-first-layer yes', 'transparent-key-resolution layer-stack'):
+        for variant in range(3 if tier == 'quick' else 12):
+            cells = lambda: ' '.join(rng.choice(['_', '_', str(rng.randint(1, 9)), 'XX']) for _ in range(3))
+            cfg = ('(defcfg %s)\n(defsrc a s d f g h)\n(deflayer l0 x y z (layer-while-held l1) (layer-while-held l2) (layer-switch l3))\n'
+                   '(deflayer l1 %s _ _ _)\n(deflayer l2 %s _ _ _)\n(deflayer l3 %s _ _ (layer-switch l0))' % (opts, cells(), cells(), cells()))
+            h = ['t5']
+            held = []
+            for _ in range(rng.randint(4, 12)):
+                r = rng.random()
+                if r < 0.3:
+                    kk = rng.choice([33, 34])
+                    if kk in held:
+                        held.remove(kk); h += ['u%d' % kk, 't5']
+                    else:
+                        held.append(kk); h += ['d%d' % kk, 't5']
+                elif r < 0.4:
+                    h += ['d35', 't5', 'u35', 't5']
+                else:
+                    kk = rng.choice([30, 31, 32])
+                    h += ['d%d' % kk, 't5', 'u%d' % kk, 't5']
+            h += ['u%d' % kk for kk in held] + ['t50', 'q']
+            for sub in ('ksim', 'rsim'):
+                out.append({'id': 'c04-loader-%d-%s' % (k, sub), 'cfg': cfg, 'files': {}, 'hist': h, 'sub': sub, 'no_compare': True,
+                            'loader_pair': 'c04-loader-%d' % k, 'tags': {'mode': 'file-vs-string-loader', 'loader': sub}})
+            k += 1
+    return out
+
+
 def post(all_results, run_impl, rng, tier, stats):
+    import re as _re
+    byid = {c['id']: (c, it) for c, it, mt in all_results}
+    pair_viol = []
+    npairs = 0
+    for cid, (c, it) in byid.items():
+        if c.get('sub') != 'rsim' or 'loader_pair' not in c:
+            continue
+        o = byid.get(c['loader_pair'] + '-ksim')
+        if not o or not it or not o[1]:
+            continue
+        npairs += 1
+        ev = lambda tr: [e for l in tr if l.startswith('@') for e in l.split()[1:] if _re.fullmatch(r'[du]\d+', e)]
+        if ev(it) != ev(o[1]):
+            pair_viol.append((c, it, None, 'the configuration loaded from a file presses %s, loaded from a string %s, on the same history'
+                              % (' '.join(ev(it))[:80], ' '.join(ev(o[1]))[:80])))
+    stats['loader_pairs'] = npairs
     """how many of the cases the refinement theorem covers (fragment configuration as the real parser produced it,
     covered history), and the driver's consistency check model-vs-spec on them"""
     stats['refinement_theorem_applies'] = 0
@@ -90,7 +140,7 @@ def post(all_results, run_impl, rng, tier, stats):
     if lsim and stats['refinement_theorem_applies'] < len(lsim) // 2:
         raise RuntimeError('the refinement theorem applied to only %d of %d fragment cases: generator and frag_cfg drifted apart'
                            % (stats['refinement_theorem_applies'], len(lsim)))
-    return out
+    return out + pair_viol
 
 
 SPEC = {
